@@ -5,7 +5,7 @@ from harness import tlc
 
 
 def validate(ctx, module, traces, decide="Decide", next_="Next", init="Init", constants=None, workers=16, chunk=4000,
-             invariants=(), note="trace validation", dfs=False, extra_files=None, env=None):
+             invariants=(), note="trace validation", dfs=False, extra_files=None, env=None, constraint=None):
     """returns [(index, failing clause)] of the rejected traces (empty = all accepted).
     `decide` is an invariant of the trace module that prints the verdict (used for one-state traces);
     multi-step trace modules print accept/fail from their actions and pass decide=None."""
@@ -15,7 +15,7 @@ def validate(ctx, module, traces, decide="Decide", next_="Next", init="Init", co
         invs = list(invariants) + ([decide] if decide else [])
         files = {"traces.json": json.dumps(part)}
         files.update(extra_files or {})
-        r = ctx.tlc(module, tlc.cfg(init=init, next_=next_, invariants=invs, constants=constants),
+        r = ctx.tlc(module, tlc.cfg(init=init, next_=next_, invariants=invs, constants=constants, constraint=constraint),
                     note="%s (%d traces)" % (note, len(part)),
                     env=dict({"TRACE_FILE": "traces.json", "FIXTURE_FILE": "fixture.json"}, **(env or {})),
                     files=files, workers=workers, dfs=dfs)
